@@ -18,7 +18,6 @@ import (
 
 type c08Meth struct {
 	name  string
-	idx   int
 	out   reflect.Type
 	kinds []string // parameter kinds: s vs ss i vi u f vf g vg
 	term  int      // 0 step, 1 Build, 2 Cache
@@ -74,7 +73,7 @@ func c08methods(t reflect.Type) []c08Meth {
 			continue
 		}
 		ot := ft.Out(0)
-		cm := c08Meth{name: m.Name, idx: i, out: ot}
+		cm := c08Meth{name: m.Name, out: ot}
 		switch {
 		case ot == c08ComT:
 			cm.term = 1
@@ -284,8 +283,6 @@ func (s *c08Shape) argv(vals []string) []string {
 	return a
 }
 
-func c08isNum(k string) bool { return k != "s" }
-
 // vector returns the L-th argument vector of the enumeration plan.
 func (s *c08Shape) vector(L int, out []string) []string {
 	n := len(s.kinds)
@@ -411,7 +408,12 @@ type c08Ident struct {
 // does: DoCache -> CacheKey, or per key MGetCacheKey/MGetCacheCmd for MGET and
 // JSON.MGET (doCacheMGet). pan != "" when CacheKey panics.
 func c08idents(c Cacheable) (ids []c08Ident, pan string) {
-	pv, _ := vrun.Catch(func() {
+	defer func() { // plain recover: CacheKey panics by design for scripts with numkeys != 1
+		if pv := recover(); pv != nil {
+			ids, pan = nil, fmt.Sprint(pv)
+		}
+	}()
+	func() {
 		if c.IsMGet() {
 			argv := c.Commands()
 			keys := len(argv) - 1
@@ -432,10 +434,7 @@ func c08idents(c Cacheable) (ids []c08Ident, pan string) {
 		}
 		k, cc := CacheKey(c)
 		ids = append(ids, c08Ident{k, cc, c.Commands()})
-	})
-	if pv != nil {
-		return nil, fmt.Sprint(pv)
-	}
+	}()
 	return ids, ""
 }
 
@@ -485,6 +484,8 @@ type c08Coll struct {
 }
 
 type c08State struct {
+	pass     int
+	passes   int
 	r        *vrun.Run
 	shapes   []*c08Shape
 	recs     []c08Rec
@@ -492,7 +493,9 @@ type c08State struct {
 	builtin  map[uint64]uint32
 	adapter  map[uint64]uint32
 	colls    map[string]*c08Coll
-	scratch  []string
+	dups     int64
+	panics   map[string]int64
+	filed    int64
 }
 
 func (st *c08State) valsOf(rc c08Rec) []string {
@@ -573,7 +576,9 @@ func (st *c08State) add(s *c08Shape, L int32, argv []string) {
 	c := Cacheable{cs: newCommandSlice(argv), cf: s.cf, ks: s.ks}
 	ids, pan := c08idents(c)
 	if pan != "" {
-		st.r.Outcome("CacheKey panics: " + pan)
+		if st.pass == 0 {
+			st.panics[pan]++
+		}
 		return
 	}
 	for e, id := range ids {
@@ -583,7 +588,7 @@ func (st *c08State) add(s *c08Shape, L int32, argv []string) {
 		}
 		hb := c08hash(id.key, id.cmd)
 		ha := c08hash(id.key + id.cmd)
-		if !st.r.Mine(int(ha % 1048573)) {
+		if !st.r.Mine(int(ha%1048573)) || int(ha>>40)%st.passes != st.pass {
 			continue
 		}
 		builtinHit := false
@@ -591,7 +596,7 @@ func (st *c08State) add(s *c08Shape, L int32, argv []string) {
 			old := st.recs[oi]
 			if oid, ok2 := st.identOf(old); ok2 && oid.key == id.key && oid.cmd == id.cmd {
 				if c08same(oid.argv, id.argv) {
-					st.r.Outcome("same command reached twice")
+					st.dups++
 					continue
 				}
 				builtinHit = true
@@ -600,6 +605,7 @@ func (st *c08State) add(s *c08Shape, L int32, argv []string) {
 		}
 		idx := uint32(len(st.recs))
 		st.recs = append(st.recs, rc)
+		st.filed++
 		if !builtinHit {
 			if _, ok := st.builtin[hb]; !ok {
 				st.builtin[hb] = idx
@@ -691,14 +697,15 @@ func TestVerif_C08(t *testing.T) {
 		}
 		sort.Strings(roots)
 		maxPaths := vrun.Pick(r, 48, 1<<30)
-		budget := vrun.Pick(r, 150000, 1500000)
+		budget := vrun.Pick(r, 150000, 600000)
 		r.Bounds["max_paths_per_command_before_edge_cover_selection"] = maxPaths
 		r.Bounds["argument_vectors_per_command_budget"] = budget
 		r.Bounds["variadic_max"] = 3
 		r.Bounds["cache_offering_types"] = len(g.offer)
 		r.Bounds["paths_total"] = len(all)
 
-		st := &c08State{r: r, builtin: map[uint64]uint32{}, adapter: map[uint64]uint32{}, colls: map[string]*c08Coll{}}
+		st := &c08State{r: r, passes: vrun.Pick(r, 1, 4), colls: map[string]*c08Coll{}, panics: map[string]int64{}}
+		r.Bounds["bucket_passes"] = st.passes
 		// pass 1: shapes and command names
 		type cmdShapes struct {
 			root   string
@@ -829,91 +836,107 @@ func TestVerif_C08(t *testing.T) {
 		}
 		r.Sample(map[string]any{"alphabet of HGET": strAlpha["HGET"], "alphabet of TTL": strAlpha["TTL"], "numbers": c08nums})
 
-		// pass 2: enumerate
+		// pass 2: enumerate (thorough: several passes, each filing one partition of the identities, to bound memory)
 		vals := make([]string, 0, 16)
 		validated, windowed := 0, 0
-		for ci, cs := range cmdsList {
-			_ = ci
-			limit := budget
-			if len(cs.shapes) > 4 {
-				limit = 4 * budget / len(cs.shapes)
-				if limit < 150 {
-					limit = 150
+		stop := false
+		for st.pass = 0; st.pass < st.passes && !stop; st.pass++ {
+			st.builtin, st.adapter, st.recs, st.specials = map[uint64]uint32{}, map[uint64]uint32{}, nil, nil
+			first := st.pass == 0
+			for _, cs := range cmdsList {
+				if stop {
+					break
 				}
-			}
-			for _, s := range cs.shapes {
-				s.alpha = make([][]string, len(s.kinds))
-				for i, k := range s.kinds {
-					if k == "s" {
-						s.alpha[i] = strAlpha[s.name]
-					} else {
-						s.alpha[i] = c08nums
+				limit := budget
+				if len(cs.shapes) > 4 {
+					limit = 4 * budget / len(cs.shapes)
+					if limit < 150 {
+						limit = 150
 					}
 				}
-				s.plan(limit)
-				if s.width < len(s.kinds) {
-					windowed++
-				}
-				r.StateStr("shape", s.describe())
-				for L := 0; L < s.total; L++ {
-					vals = s.vector(L, vals)
-					argv := s.argv(vals)
-					r.Evaluations++
-					if len(s.kinds) >= 2 {
-						r.Nontrivial++ // counted below through AddStates-like accounting
-					}
-					if L == 0 || L == s.total-1 || L%1021 == 511 {
-						real, err := c08buildReal(s.recipe(vals))
-						if err != nil || !c08same(real.Commands(), argv) || real.cf != s.cf {
-							panic(fmt.Sprintf("template instantiation disagrees with the real builder for %s %q: %v %q", s.describe(), vals, err, real.Commands()))
+				for _, s := range cs.shapes {
+					s.alpha = make([][]string, len(s.kinds))
+					for i, k := range s.kinds {
+						if k == "s" {
+							s.alpha[i] = strAlpha[s.name]
+						} else {
+							s.alpha[i] = c08nums
 						}
-						validated++
 					}
-					st.add(s, int32(L), argv)
-				}
-				// absorb probe: the default command of this shape versus each shorter cacheable
-				// form whose last string slot swallows the remaining tokens
-				if len(s.prefix) > 0 {
-					def := s.vector(0, nil)
-					full := s.argv(def)
-					for pi, pm := range s.prefix {
-						ns := s.pslots[pi]
-						// find the shape of the prefix
-						var ps *c08Shape
-						for _, o := range cs.shapes {
-							if len(o.m) == pm && c08same(o.m, s.m[:pm]) && len(o.kinds) == ns {
-								ps = o
-								break
+					s.plan(limit)
+					if first && s.width < len(s.kinds) {
+						windowed++
+					}
+					for L := 0; L < s.total; L++ {
+						vals = s.vector(L, vals)
+						argv := s.argv(vals)
+						if first {
+							r.Evaluations++
+							h := uint64(s.id)<<36 | uint64(L)
+							r.State(h)
+							if len(s.kinds) >= 2 {
+								r.NonTrivial(h)
 							}
 						}
-						if ps == nil {
-							continue
+						if first && (L == 0 || L == s.total-1 || L%1021 == 511) {
+							real, err := c08buildReal(s.recipe(vals))
+							if err != nil || !c08same(real.Commands(), argv) || real.cf != s.cf {
+								panic(fmt.Sprintf("template instantiation disagrees with the real builder for %s %q: %v %q", s.describe(), vals, err, real.Commands()))
+							}
+							validated++
 						}
-						pv := append([]string(nil), def[:ns]...)
-						plen := len(ps.tmpl)
-						pv[ns-1] = full[ps.pos[ns-1]] + strings.Join(full[plen:], "")
-						if ps.pos[ns-1] != plen-1 {
-							continue
-						}
-						real, err := c08buildReal(ps.recipe(pv))
-						if err != nil {
-							continue
-						}
-						r.Evaluations++
-						r.Outcome("absorb probe")
-						st.specials = append(st.specials, pv)
-						st.add(ps, int32(-len(st.specials)), append([]string(nil), real.Commands()...))
+						st.add(s, int32(L), argv)
 					}
-				}
-				if r.TimeUp() {
-					break
+					// absorb probe: the default command of this shape versus each shorter cacheable
+					// form whose last string slot swallows the remaining tokens
+					if len(s.prefix) > 0 {
+						def := s.vector(0, nil)
+						full := s.argv(def)
+						for pi, pm := range s.prefix {
+							ns := s.pslots[pi]
+							// find the shape of the prefix
+							var ps *c08Shape
+							for _, o := range cs.shapes {
+								if len(o.m) == pm && c08same(o.m, s.m[:pm]) && len(o.kinds) == ns {
+									ps = o
+									break
+								}
+							}
+							if ps == nil {
+								continue
+							}
+							pv := append([]string(nil), def[:ns]...)
+							plen := len(ps.tmpl)
+							pv[ns-1] = full[ps.pos[ns-1]] + strings.Join(full[plen:], "")
+							if ps.pos[ns-1] != plen-1 {
+								continue
+							}
+							real, err := c08buildReal(ps.recipe(pv))
+							if err != nil {
+								continue
+							}
+							if first {
+								r.Evaluations++
+								r.Outcome("absorb probe")
+							}
+							st.specials = append(st.specials, pv)
+							st.add(ps, int32(-len(st.specials)), append([]string(nil), real.Commands()...))
+						}
+					}
+					if r.TimeUp() {
+						stop = true
+						break
+					}
 				}
 			}
 		}
+		for p, n := range st.panics {
+			r.Outcomes["CacheKey panics (by design): "+p] += n
+		}
+		r.Outcomes["same command generated twice (windows overlap / equivalent paths)"] += st.dups
+		r.Outcomes["identities filed"] += st.filed
 		r.Bounds["shapes_enumerated_in_windows_instead_of_full_product"] = windowed
 		r.Bounds["vectors_validated_against_real_builder"] = validated
-		r.AddStates("entries", 0)
-
 		// report: one violation per signature with the most readable pair
 		var sigs []string
 		for s := range st.colls {
@@ -945,7 +968,5 @@ func TestVerif_C08(t *testing.T) {
 			r.Note(fmt.Sprintf("%s [%d colliding pairs]: shapes %s", c.sig, c.count, strings.Join(sh, " ; ")))
 			r.Outcome("collision class: " + c.sig[strings.LastIndex(c.sig, ": ")+2:])
 		}
-		r.Outcome(fmt.Sprintf("distinct identities filed"))
-		r.Bounds["identities_filed"] = len(st.recs)
 	})
 }
